@@ -7,12 +7,6 @@ import Model.Spec.Series
 namespace Driver.C18
 open Proto Series
 
-/-- bytewise lexicographic `a ≤ b` (Go string comparison) -/
-def bytesLe : Bytes → Bytes → Bool
-  | [], _ => true
-  | _ :: _, [] => false
-  | a :: as, b :: bs => a < b || (a == b && bytesLe as bs)
-
 def env : Env := { norm := Date.normalize, le := bytesLe }
 def opts : Opts := { num := Bytes.ofString "num", den := Bytes.ofString "den" }
 
